@@ -31,6 +31,18 @@ def spec_pool():
     for text in [samples.SCHEMAS[10], samples.SCHEMAS[14], '{\n  "a": @t, // {optional: true}\n  "b": [1, 2]\n}']:
         for k in range(1, len(text), 3):
             sp.append(spec(text[:k]))
+    # the loader fails after it registered unnamed types (type choices, `or` with type names) and set a root node
+    for text in ['{\n  "secret": 42,\n  "a": @foo | @bar,\n  "b": [1, 2] // {or: ["@foo", "string"]}\n}',
+                 '[\n  @foo | @bar,\n  1 // {or: [{type: "@foo"}, {type: "integer", min: 0}]}\n]']:
+        for k in range(1, len(text), 2):
+            sp.append(spec(text[:k]))
+        sp.append(spec(text + ' x'))
+    # free text before the first value (handled by the loader before any node of the schema exists)
+    sp.append(spec('// note\n{\n  "a": 1\n}'))
+    sp.append(spec('/* header */ 42'))
+    # nothing to load at all
+    sp.append(spec(''))
+    sp.append(spec('# nothing here\n'))
     # failing in AddType / missing types / recursion
     sp.append(spec('{"a": @missing}'))
     sp.append(spec('@t', {'@t': '{"x": @t}'}))
@@ -56,6 +68,54 @@ def spec_pool():
     sp.append(spec('{"a": {"b": 1}, "c": [1, 2]}'))
     sp.append(spec('[[1, [2, {"x": [3]}]], {"y": {"z": []}}]'))
     return sp
+
+
+def strip_types(sp):
+    """the project without its types (what an object is between the ops r and t)"""
+    t = sp.split(' ')
+    out, i = [t[0]], 1
+    while i < len(t):
+        if t[i] == 'T':
+            i += 4
+        elif t[i] == 'E':
+            out += t[i:i + 3]; i += 3
+        else:
+            out.append(t[i]); i += 1
+    return ' '.join(out)
+
+
+def late_cases(rng, n):
+    """histories in the order of a tool that first creates (and loads) every schema of a project, then registers the types on each, then
+    asks: r<k> root alone, u<k> UsedUserTypes (loads), t<k> types.  Distractors: schemas with nothing to load that carry the same type
+    names, half-way failing ones."""
+    cs = []
+    asks = 'c1 l1 e1 a1 u1 o1 c0 e0'.split()
+    typed = [(r, t) for r, t in samples.TYPED_SCHEMAS if t]
+    for root, types in typed:
+        m = spec(root, types)
+        bare = spec(root)
+        for d in [spec('', types), spec('# nothing here\n', types), spec('{"a": @foo | @bar,', types), spec(root, types)]:
+            for pre in (['r0', 'u0', 'r1', 'u1', 't0', 't1'], ['r0', 'u0', 'r1', 'u1', 't1', 't0'], ['r0', 'r1', 'u0', 'u1', 't0', 't1']):
+                cs.append(Case('hist %s ; %s ;; %s' % (d, m, ' '.join(pre + asks)), 'history-late', meta=([d, m], pre + asks)))
+                cs.append(Case('hist %s ; %s ;; %s' % (m, d, ' '.join(pre + asks)), 'history-late', meta=([m, d], pre + asks)))
+            # the victim never gets its types: what was registered on the other object must not count
+            pre = ['r0', 'u0', 'r1', 'u1', 't0']
+            cs.append(Case('hist %s ; %s ;; %s' % (d, m, ' '.join(pre + ['c1', 'e1', 'u1'])), 'history-late', meta=([d, m], pre + ['c1', 'e1', 'u1'])))
+    pool = spec_pool()
+    for _ in range(n):
+        k = rng.randint(2, 4)
+        objs = [rng.choice(pool) for _ in range(k)]
+        order = list(range(k)); rng.shuffle(order)
+        ops = []
+        for j in order:
+            ops.append('r%d' % j)
+            if rng.random() < 0.7:
+                ops.append('u%d' % j)
+        rng.shuffle(order)
+        ops += ['t%d' % j for j in order]
+        ops += ['%s%d' % (rng.choice('cleauo'), rng.randrange(k)) for _ in range(rng.randint(2, 8))]
+        cs.append(Case('hist ' + ' ; '.join(objs) + ' ;; ' + ' '.join(ops), 'history-late-%dobj' % k, meta=(objs, ops)))
+    return cs
 
 
 class Prop:
@@ -89,7 +149,26 @@ class Prop:
         # every object of the pool: each answer asked for twice with the other operations in between
         for sp1 in pool:
             cs.append(Case('hist %s ;; a0 o0 e0 a0 o0 e0 u0 c0 a0' % sp1, 'history-repeat', meta=([sp1], 'a0 o0 e0 a0 o0 e0 u0 c0 a0'.split())))
+        # every object of the pool loaded, then a schema that begins with free text is loaded, then the first object is asked
+        for sp1 in pool:
+            for note in [spec('// note\n{\n  "a": 1\n}'), spec('/* header */ 42')]:
+                for ops in ['c0 c1 a0 e0 o0 u0'.split(), 'u0 u1 a0 c0 o0 e0'.split()]:       # u: loaded, not yet compiled
+                    cs.append(Case('hist %s ; %s ;; %s' % (sp1, note, ' '.join(ops)), 'history-then-note', meta=([sp1, note], ops)))
+        cs += late_cases(rng, 300 if tier == 'quick' else 3000)
         return cs
+
+    def asked(self, objs, ops):
+        """(op token, reference project) per op: between r and t the object is the project without its types"""
+        bare = set()
+        out = []
+        for o in ops:
+            k = int(o[1])
+            if o[0] == 'r':
+                bare.add(k)
+            elif o[0] in 'tn':
+                bare.discard(k)
+            out.append((o, strip_types(objs[k]) if k in bare else objs[k]))
+        return out
 
     def run_impl(self, lines):
         out = vf.run_impl(lines, env=ENV)
@@ -97,9 +176,9 @@ class Prop:
         need = set()
         for l in lines:
             objs, ops = self.split(l)
-            for o in ops:
+            for o, sp in self.asked(objs, ops):
                 if o[0] in OPS:
-                    need.add((OPS[o[0]], objs[int(o[1])]))
+                    need.add((OPS[o[0]], sp))
         exe = os.path.join(vf.HARNESS, 'bin', 'implrun')
         for (op, sp) in sorted(need):
             if (op, sp) not in self.ref:
@@ -129,10 +208,10 @@ class Prop:
         if st != 'stable=1':
             return 'a value returned to the caller changed afterwards: ' + st
         objs, ops = self.split(case.line)
-        for o, d in zip(ops, toks[:-1]):
+        for (o, sp), d in zip(self.asked(objs, ops), toks[:-1]):
             if o[0] not in OPS:
                 continue
-            want = self.ref.get((OPS[o[0]], objs[int(o[1])]))
+            want = self.ref.get((OPS[o[0]], sp))
             if want is not None and d != want:
                 return 'operation %s on object %s gives %s in this history but %s as the first operation of a fresh process' % (
                     OPS[o[0]], o[1], d, want)
